@@ -660,7 +660,7 @@ def gen_attr_cases(tier, rnd):
             yield ('binary', tag, first, later), one_prop_doc(P('p', vals))
         yield ('binary', tag, 'single'), one_prop_doc(P('p', [V('x', (tag, 'binary'))]))
     # random mixtures of placements
-    k = 40 if tier == 'quick' else 600
+    k = 40 if tier == 'quick' else 2000
     for _ in range(k):
         n = rnd.choice((2, 3))
         pats = {t: rnd.choice(PATTERNS + ('none',)) for t in VAL_ATTRS}
@@ -807,7 +807,7 @@ def gen_misc_cases(tier, rnd):
 
 def gen_tree_cases(tier, rnd):
     """group H: all forest shapes, random filling from every feature above."""
-    per_shape = 6 if tier == 'quick' else 30
+    per_shape = 6 if tier == 'quick' else 100
     max_secs = 3 if tier == 'quick' else 4
     k = itertools.count()
 
